@@ -99,7 +99,7 @@ def gen_sasl():
     ifmts = re.findall(r'strophe_snprintf\s*\(\s*message\s*,\s*message_len\s*,\s*"([^"]*)"', mk)
     if len(ifmts) != 2:
         raise ExtractError("_make_scram_init_msg: format strings not found")
-    escapes = bool(re.search(r"=2C", auth)) and bool(re.search(r"=3D", auth))
+    escapes = bool(re.search(r"=\s*_scram_escape_name\s*\(\s*ctx\s*,\s*node\s*\)", mk))
     lg = fn_body(auth, "_auth_legacy")
     m = _need(re.search(r'xmpp_iq_new\s*\(\s*conn->ctx\s*,\s*"([^"]*)"\s*,\s*"([^"]*)"\s*\)', lg), "_auth_legacy: iq")
     iq_type, iq_id = _cstr(m.group(1)), _cstr(m.group(2))
@@ -148,7 +148,7 @@ def gen_sasl():
     body += d("scramNonceLen : Nat", "length handed to xmpp_rand_nonce in _make_scram_init_msg", nonce_len)
     body += d("scramInitFmtPlus : String", "client-first format, -PLUS", '"%s"' % ifmts[0])
     body += d("scramInitFmtPlain : String", "client-first format, no channel binding", '"%s"' % ifmts[1])
-    body += d("scramEscapesName : Bool", "does auth.c contain the =2C / =3D saslname escapes?",
+    body += d("scramEscapesName : Bool", "does _make_scram_init_msg pass the node through _scram_escape_name (RFC 5802 =2C / =3D)?",
               "true" if escapes else "false")
     body += d("legacyIqType : List UInt8", "_auth_legacy iq type", _lean_bytes(iq_type))
     body += d("legacyIqId : List UInt8", "_auth_legacy iq id", _lean_bytes(iq_id))
@@ -171,8 +171,8 @@ GENERATORS = [gen_sasl]
 FINGERPRINTS = {
     "sasl.c": ["sasl_plain", "_make_string", "_make_quoted", "_parse_digest_challenge", "_digest_to_hex",
                "_add_key", "sasl_digest_md5", "sasl_scram"],
-    "scram.c": ["SCRAM_Hi", "SCRAM_ClientKey", "SCRAM_ClientSignature", "SCRAM_ClientProof"],
-    "auth.c": ["_make_scram_init_msg", "_handle_scram_challenge", "_handle_digestmd5_challenge",
+    "scram.c": ["crypto_HMAC_parts", "SCRAM_Hi", "SCRAM_ClientKey", "SCRAM_ClientSignature", "SCRAM_ClientProof"],
+    "auth.c": ["_scram_escape_name", "_make_scram_init_msg", "_handle_scram_challenge", "_handle_digestmd5_challenge",
                "_auth_legacy", "_handle_component_auth", "_get_authid"],
     "rand.c": ["xmpp_rand_nonce", "rand_byte2hex"],
     "jid.c": ["xmpp_jid_node", "xmpp_jid_domain", "xmpp_jid_resource"],
